@@ -31,6 +31,50 @@ Theorem C20_resolved_exists : forall ex q r,
 Proof. exact resolve_exists. Qed.
 Print Assumptions C20_resolved_exists.
 
+(* The backends.  The resolution depends on the store only through the existence of its four
+   candidates ... *)
+Theorem C20_resolution_depends_on_candidates_only : forall ex ex' q,
+  (forall c, In c (candidates q) -> ex (print_query c) = ex' (print_query c)) ->
+  resolve ex q = resolve ex' q.
+Proof. exact resolve_ext. Qed.
+Print Assumptions C20_resolution_depends_on_candidates_only.
+
+(* ... the Consul backend asks Consul for the key itself (translator cfgbackends over
+   configuration/cfgbackend/consulsource.go), so its Exists says yes exactly for the entries ... *)
+Theorem C20_consul_exists_by_get_in_source : consul_exists_by_get = true.
+Proof. exact consul_exists_by_get_in_source. Qed.
+Print Assumptions C20_consul_exists_by_get_in_source.
+
+Theorem C20_consul_exists_is_membership : forall existing p,
+  consul_exists consul_exists_by_get existing p = is_entry existing p.
+Proof. exact consul_exists_membership. Qed.
+Print Assumptions C20_consul_exists_is_membership.
+
+(* ... and the resolution over it is the first candidate that is an ENTRY: it depends only on the
+   set of existing entries, and what it returns is one *)
+Theorem C20_consul_resolution_first_entry : forall existing q,
+  resolve (consul_exists consul_exists_by_get existing) q = first_existing (is_entry existing) (candidates q).
+Proof. exact consul_resolution. Qed.
+Print Assumptions C20_consul_resolution_first_entry.
+
+Theorem C20_consul_resolved_is_entry : forall existing q r,
+  resolve (consul_exists consul_exists_by_get existing) q = Some r ->
+  is_entry existing (print_query r) = true /\ In r (candidates q).
+Proof. exact consul_resolved_is_entry. Qed.
+Print Assumptions C20_consul_resolved_is_entry.
+
+(* The file backend's Exists says yes for folders too: "a resolved path is an entry" is refuted for
+   it (finding C20-a, replayed by corpus/C20/03) and holds when no candidate is a folder *)
+Theorem C20_file_backend_resolves_entries_refuted : ~ file_resolves_entries_statement.
+Proof. exact file_resolves_entries_refuted. Qed.
+Print Assumptions C20_file_backend_resolves_entries_refuted.
+
+Theorem C20_file_backend_resolves_entries_partial : forall existing q,
+  (forall c, In c (candidates q) -> is_folder existing (print_query c) = false) ->
+  resolve (file_exists existing) q = first_existing (is_entry existing) (candidates q).
+Proof. exact file_resolves_entries_partial. Qed.
+Print Assumptions C20_file_backend_resolves_entries_partial.
+
 (* Query strings: parse . print = id on well-formed queries; print . parse = trim;
    everything outside the grammar is rejected. *)
 Theorem C20_print_parse : forall q, wf_query q = true -> parse_query (print_query q) = Some q.
@@ -210,6 +254,14 @@ Proof. vm_compute. repeat split; reflexivity. Qed.
 
 (* had the function map been registered with the cached template set (switch on), the payload
    would depend on the variables of an earlier request *)
+(* had ConsulSource.Exists asked Consul by key listing (prefix semantics), a candidate that is
+   no entry would be accepted *)
+Example C20_prefix_listing_differs :
+  exists existing q r,
+    resolve (consul_exists false existing) q = Some r /\ is_entry existing (print_query r) = false /\
+    resolve (consul_exists true existing) q <> Some r.
+Proof. exact prefix_listing_differs. Qed.
+
 Example C20_shared_function_map_leaks :
   exists be p v1 v2 v,
     snd (step_g true (fst (run_g true (fresh be) [OReq p v1])) (OReq p v)) <>
